@@ -7,7 +7,7 @@ T4 = ["Deadline", "Timeout"]
 PROOF_MODULES = ["GrpcProofs.Properties.C22"]
 THEOREMS = ["GrpcProofs.C22." + t for t in (
     "every_block_point_listens_to_ctx", "watcher_relays_ctx", "wf_reachable", "terminal_code",
-    "parked_rpc_returns_ctx_code", "parked_wquota_unblocked", "finished_stream_returns_code",
+    "parked_rpc_returns_ctx_code", "parked_mid_message_returns_ctx_code", "parked_wquota_unblocked", "finished_stream_returns_code",
     "ctx_done_never_blocks", "unary_never_parked_on_wquota",
     "cancel_anywhere_releases_stream", "released_stream_recv_returns_code",
     "server_deadline_ge_client_remaining", "expired_deadline_not_sent",
@@ -35,7 +35,9 @@ LEVEL_NOTE = ("PARTIAL. The context watcher started by newClientStream for every
               "another case is ready at the same moment Go's select may take it and the RPC proceeds to the next blocking point, "
               "which again listens to the context (ctx_done_never_blocks) - it may then complete with the server's status. "
               "'Flow control' is not a place where the application goroutine blocks in grpc-go: data waits in loopy; the goroutine "
-              "is then parked on write quota (next SendMsg) or in receive - both covered (scenarios wquota, window). writeQuota.get "
+              "is then parked on write quota (next SendMsg) or in receive - both covered (scenarios wquota, window). Receive has two "
+              "selects with the same case set (readMessageHeaderClient before a message, readClient inside one): one model position "
+              "`recv` with the flag midMsg; the tie parks a unary RPC in each (scenarios recv / recvbody, told apart on the stack). writeQuota.get "
               "has no ctx case: it listens to s.done, closed by the watcher goroutine that newClientStream starts for non-unary RPCs "
               "only; a unary RPC never parks there (theorem unary_never_parked_on_wquota, initial quota 65536 > 0, one message). "
               "Handler ctx.Err() when the server's own deadline and the client's RST_STREAM coincide (exactly representable "
@@ -50,14 +52,14 @@ ASSUMPTIONS = ["0 < timeout <= MaxInt64 ns", "contexts are context.WithCancel/Wi
 RULE = ("application-driven streams made with cc.NewStream for all four StreamDesc shapes (ClientStreams x ServerStreams, including "
         "neither) against a silent or headers-first handler: cancel / deadline fired right after NewStream, after SendMsg with no "
         "RecvMsg pending, after several sends, while parked in RecvMsg, while parked in SendMsg on write quota, and after random "
-        "call walks; then RecvMsg / SendMsg / server events are queried. And for each of the 6 parking scenarios (pick, squota, wquota, window, header, recv): deadline RPCs with timeouts at every "
+        "call walks; then RecvMsg / SendMsg / server events are queried. And for each of the 7 parking scenarios (pick, squota, wquota, window, header, recv = waiting for a message to begin, recvbody = in the middle of a message: a scripted raw HTTP/2 server sent a message header announcing 100 bytes and only 10 of them): deadline RPCs with timeouts at every "
         "grpc-timeout unit boundary (exactly representable and not: n/u/m/S/M/H, 8-digit limits, +-1 ns), advanced to deadline-1, "
         "deadline, deadline+1 in one or several steps; cancel before / at / after the deadline, cancel without deadline, double "
         "cancel; server events queried before and after; malformed ops. A case is non-trivial if the real RPC was parked (`at:`) and "
         "returned through a context event; distinct = distinct op sequence.")
 
 S = 10 ** 9
-SCEN = ["pick", "squota", "wquota", "window", "header", "recv"]
+SCEN = ["pick", "squota", "wquota", "window", "header", "recv", "recvbody"]
 TIMEOUTS = [1, 2, 999, 1000, 1001, 99999999, 100000000, 100000001, 5 * S, 123456789123, 99999999999, 100000000001,
             60 * S, 3600 * S, 99999999 * 1000 + 1, 99999999 * 10 ** 6 + 1, 6 * 10 ** 15 + 1, 99999999 * 60 * S + 7, 3 * 10 ** 17 + 1]
 
